@@ -26,7 +26,7 @@ PROCS = 12
 
 def run_real(case):
   out = ec.run_test_case(case)
-  return {'tokens': out['tokens']}
+  return {'tokens': ec.core_tokens(out['tokens'])}
 
 
 def encode(case, obs):
